@@ -280,7 +280,7 @@ class C20(runner.Check):
     id = "C20"
     level = "exploration"
     watchdog_s = 600.0
-    budget_s = {"thorough": 1800}      # shards not started within the budget are reported as a cap
+    budget_s = {"thorough": 1500}      # shards not started within the budget are reported as a cap
     rule = ("states = arrays of a 20-type menu (quick; 29 thorough) x physical encodings (k <= 1 non-canonical node, every node "
             "class and index width the lowering supports) and the same arrays wrapped by ak.virtual (with/without form and "
             "length, with a cache) and ak.partitioned (every 2-way split); transitions = access programs generated from the "
@@ -350,7 +350,7 @@ class C20(runner.Check):
         return progs
 
     def _arrays(self, T, tier):
-        N, M, cap = (2, 2, 3) if tier == "quick" else (3, 2, 14)
+        N, M, cap = (2, 2, 3) if tier == "quick" else (3, 2, 6)
         out = list(values.arrays(T, N, M, 5))
         if len(out) > cap:
             out = out[:2] + out[-(cap - 2):]
